@@ -168,7 +168,7 @@ PROPS = {
     "C14": P(
         "model_checking",
         "Explicit-state BFS of the real Subject to a fixpoint (closed state space: histories of any length over the alphabet are "
-        "covered) for limits 0,1,2 with 2 endpoints x 2 tokens x 2 paths (34 actions), plus 3 endpoints x 3 tokens on one path; "
+        "covered) for limits 0,1,2 with 2 endpoints x 2 tokens x 2 paths (34 actions), plus 3 endpoints x 3 tokens on one path and 2 endpoints x 3 paths; "
         "every transition runs the real operation in lock-step with refmodel::subject and checks observer identity/order/tokens, "
         "one-observer-per-endpoint, frame conditions on all other paths and no entry creation by rounds. distinct non-trivial = "
         "distinct canonical states (per path ordered observers with endpoint, token, count, pending id).",
@@ -531,7 +531,9 @@ def check(pid, tier):
         assumptions=assumptions, wall_s=round(wall, 2), violations=unlisted,
     )
     if prop["level"] == "model_checking":
-        evidence["coverage"].update(states=cov["states"], transitions=cov["transitions"],
+        # states: distinct canonical states of the largest single configuration (the configurations explore the same
+        # space on differently built code); transitions: executions summed over all configurations
+        evidence["coverage"].update(states=max_states, states_summed_over_configurations=cov["states"], transitions=cov["transitions"],
                                     traces_validated_against_impl=cov["traces_validated_against_impl"])
     os.makedirs(EVID, exist_ok=True)
     path = os.path.join(EVID, f"{pid}.json")
